@@ -101,7 +101,7 @@ class C12(Prop):
     pid = "C12"
     prop_file = "Props/C12.v"
     module = "Props.C12"
-    gen_deps = ["Ls"]
+    gen_deps = ["Ls", "LsFn"]
     harness = ("h-text", "htext")
     nontrivial_rule = ("cases: every list of up to L atoms (L=2 quick, 3 thorough) where an atom is a code 0..=110 or one of 8 complete extended-colour forms "
                        "(38/48/58 with ;5;n and ;2;r;g;b) -- exhaustive; every code 0..=255 alone with 0-3 leading zeros; seeded random well-formed lists of up to 40 "
